@@ -230,10 +230,21 @@ STRUCT_T = {'h8/300': ['byte1\tds.b 1', 'byte2\tds.b 1', 'rdy\tbit 0,byte1', 'er
             'st7': ['byte1\tds.b 1', 'byte2\tds.b 1', 'rdy\tbit byte1,0', 'err\tbit byte3,1', 'fwd\tbit byte2,2']}
 
 
+PV = ['\tpushv alpha,x', '\tpushv beta,x', '\tpopv alpha,x', '\tpopv beta,x', '\tpushv ,x', '\tpopv ,x', '\tpushv gamma,x,x', '\tpopv gamma,x']
+BINC = ['\tbinclude "s.bin"%s' % a for a in ('', ',0', ',4', ',8', ',9', ',0,0', ',0,8', ',0,9', ',4,4', ',4,5', ',4,100', ',8,1', ',9,1', ',4,-1', ',-1,2', ',4,65536')]
+
+
 def seq_cases(n):
     for k in range(1, n + 1):
         for seq in itertools.product(range(len(PP)), repeat=k):
             yield {'k': 'seq', 'fam': 'pp', 'seq': list(seq)}
+    # symbol stacks: several named stacks created and emptied in every order
+    for k in range(1, n + 2):
+        for seq in itertools.product(range(len(PV)), repeat=k):
+            yield {'k': 'seq', 'fam': 'pushv', 'seq': list(seq)}
+    # BINCLUDE windows at, across and behind the end of an 8-byte file
+    for i in range(len(BINC)):
+        yield {'k': 'seq', 'fam': 'binclude', 'seq': [i]}
     for cpu, items in STRUCT_T.items():
         for k in range(1, n + 1):
             for seq in itertools.product(range(len(items)), repeat=k):
@@ -360,7 +371,8 @@ def evaluate(case):
         def run(v, to=4):
             core.fresh()
             core.put('a.asm', src)
-            core.put('s', 'x equ 1\n')
+            for nm in ('s', 's.inc', 's.bin'):        # (INCLUDE/BINCLUDE append a default extension to a bare name)
+                core.put(nm, 'x equ 1\n')
             return core.run('asl', ['-q', 'a.asm'], variant=v, timeout=to)
         o = run(case['v'])
         r = finish(run, o, ASL_OK, describe(case), 'asl/%s' % op, big_ok=any(a in BIG for a in case['args']))
@@ -386,12 +398,17 @@ def evaluate(case):
     if k == 'seq':
         if case['fam'] == 'pp':
             src = '\tcpu 8080\n' + '\n'.join(PP[i] for i in case['seq']) + '\n\tnop\n'
+        elif case['fam'] == 'pushv':
+            src = '\tcpu 8080\nx\tset 1\n' + '\n'.join(PV[i] for i in case['seq']) + '\n\tnop\n'
+        elif case['fam'] == 'binclude':
+            src = '\tcpu 8080\n' + '\n'.join(BINC[i] for i in case['seq']) + '\n\tnop\n'
         else:
             src = '\tcpu %s\nflags\tstruct\n%s\nflags\tendstruct\n\tnop\n' % (case['cpu'], '\n'.join(STRUCT_T[case['cpu']][i] for i in case['seq']))
 
         def run(v, to=6):
             core.fresh()
             core.put('a.asm', src)
+            core.put('s.bin', '12345678')
             return core.run('asl', ['-q', 'a.asm'], variant=v, timeout=to, maxout=1 << 16)
         o = run('asan')
         r = finish(run, o, ASL_OK, src.replace('\n', ' / '), 'asl/seq/' + case['fam'], big_ok=False)
